@@ -307,7 +307,7 @@ Qed.
 
 Theorem codec_ok_aligned_utf8 : forall enc c, lookup_codec enc = LOk (B "utf-8") c -> codec_ok_aligned enc.
 Proof.
-  intros enc c H. pose proof H as H0. canon_is "utf-8" utf8 H0.
+  intros enc c H. pose proof H as H0. canon_is' "utf-8" utf8 H0.
   exists utf8, [], (enc_all u8_enc_cp). split.
   - apply (codec_laws_of_cp enc (B "utf-8") utf8 [] u8_enc_cp u8_dec);
       [exact H | intros t; rewrite option_map_app_nil; reflexivity | reflexivity | reflexivity
@@ -317,7 +317,7 @@ Qed.
 
 Theorem codec_ok_aligned_utf8sig : forall enc c, lookup_codec enc = LOk (B "utf-8-sig") c -> codec_ok_aligned enc.
 Proof.
-  intros enc c H. pose proof H as H0. canon_is "utf-8-sig" utf8sig H0.
+  intros enc c H. pose proof H as H0. canon_is' "utf-8-sig" utf8sig H0.
   exists utf8sig, bom8, (enc_all u8_enc_cp). split.
   - apply (codec_laws_of_cp enc (B "utf-8-sig") utf8sig bom8 u8_enc_cp u8_dec);
       [exact H | reflexivity | reflexivity | reflexivity
